@@ -189,6 +189,43 @@ fn big_address_family(rep: &mut Report, sizes: &[usize]) {
     rep.out.merge(out);
 }
 
+/// Tall-chain family: heights beyond one byte (and two fork blocks at the top), outputs to A
+/// at heights around 255/256, a spend of an old stable output near the tip; all pages followed
+/// with page sizes 1000 and 2.
+fn tall_chain_family(rep: &mut Report, len: usize, theta: u32) {
+    let mut out = Out::default();
+    let mut w = World::new(WorldCfg::regtest(theta));
+    let mut tip = w.refm.genesis;
+    let mut first_a: Option<([u8; 32], u32)> = None;
+    for i in 1..=len {
+        let pays_a = i == 1 || (i >= 254 && i <= 258) || i + 3 >= len;
+        let mut txs = vec![factory::coinbase_tx(i as u64, vec![(1000 + i as u64, w.book.script(if pays_a { factory::A } else { factory::B }))])];
+        if i == 1 {
+            first_a = Some((factory::txid_of(&txs[0]), 0));
+        }
+        if i + 1 == len {
+            // spend the very first output of A (stable for a long time by now)
+            let k = first_a.unwrap();
+            txs.push(factory::spend_tx(&[k], vec![(1001, w.book.script(factory::C))], 1, 0x7a));
+        }
+        tip = w.extend(&tip, txs, 1);
+        let _ = w.ingest(None);
+        out.transitions += 1;
+    }
+    // a competing block at the top
+    let parent = w.refm.get(&tip).parent;
+    let _ = w.extend(&parent, vec![factory::coinbase_tx(9_999, vec![(7, w.book.script(factory::A))])], 1);
+    out.set_history(json!({"family": "tall chain", "blocks": len, "theta": theta, "stable_height": w.stable_height()}));
+    for a in [factory::A, factory::B, factory::C] {
+        for l in [None, Some(2usize)] {
+            check_address(&w, a, l, &mut out, "tall:");
+            out.states += 1;
+        }
+    }
+    out.leaves += 1;
+    rep.out.merge(out);
+}
+
 pub fn run(tier: &str) -> i32 {
     let mut rep = Report::new("C01", tier, "model_checking");
     let quick = tier == "quick";
@@ -198,6 +235,8 @@ pub fn run(tier: &str) -> i32 {
             (Network::Regtest, 1, 4, vec![1], 2, vec![None, Some(2)]),
             (Network::Regtest, 2, 4, vec![1], 2, vec![None, Some(1)]),
             (Network::Regtest, 2, 3, vec![1, 3], 3, vec![None]),
+            (Network::Mainnet, 2, 3, vec![1], 2, vec![None, Some(1)]),
+            (Network::Testnet, 1, 3, vec![1], 2, vec![None, Some(2)]),
         ]
     } else {
         vec![
@@ -228,6 +267,11 @@ pub fn run(tier: &str) -> i32 {
     let sizes: Vec<usize> = if quick { vec![999, 1001] } else { vec![999, 1000, 1001, 2001] };
     big_address_family(&mut rep, &sizes);
     rep.parts.push(json!({"part": "page-size family (real limit 1000)", "outputs": sizes}));
+    let tall: Vec<(usize, u32)> = if quick { vec![(300, 2)] } else { vec![(300, 2), (600, 144), (70_000 / 100, 6)] };
+    for (l, t) in &tall {
+        tall_chain_family(&mut rep, *l, *t);
+    }
+    rep.parts.push(json!({"part": "tall-chain family (heights beyond one byte, old stable output spent near the tip)", "runs": tall}));
     rep.rule = "LEDGER histories: every tree of <= n blocks in every arrival order, each block carrying a body from the menu (coinbase, spend of parent coinbase, same-block create-and-spend, op_return/zero-value/bare/oversized outputs, the shared transaction T, outputs to a pair of addresses where one text is a prefix of the other, spend of the oldest output, multi-output/multi-input), at most k non-default bodies per history, unsliced ingestion opportunities; in every state every book address is queried with all pages followed (page sizes 1000, and 1/2 through the hook) and compared with the ledger replayed from genesis to the named tip".into();
     rep.bounds = json!({"tier": tier, "profile": "LEDGER"});
     rep.assume("domain: transaction-valid blocks (the menu only offers bodies whose inputs are unspent on the block's own chain)");
